@@ -3,6 +3,7 @@ package e5path
 import (
 	"fmt"
 	"go/ast"
+	"go/constant"
 	"go/token"
 	"go/types"
 	"sort"
@@ -1436,4 +1437,181 @@ func loopComplete(hdr *ssa.BasicBlock) bool {
 		}
 	}
 	return true
+}
+
+// ExtensionByDefinition (C07.9): a module file can declare a type and extend it; both definitions carry the same name.
+// Whether a definition is the extension is decided by comparing it with the definition the listener recorded in its
+// extension table, not by the presence of its name in that table (a comma-ok lookup whose ok is branched on).
+func ExtensionByDefinition(p *load.Prog, r *oblig.Report, rule string, funcs []*ssa.Function) {
+	n := 0
+	for _, fn := range funcs {
+		if fn.Pkg == nil || fn.Pkg.Pkg.Name() != "transformer" {
+			continue
+		}
+		for _, b := range fn.Blocks {
+			for _, in := range b.Instrs {
+				lk, ok := in.(*ssa.Lookup)
+				if !ok {
+					continue
+				}
+				mt, ok := lk.X.Type().Underlying().(*types.Map)
+				if !ok || !strings.HasSuffix(mt.Elem().String(), "v1.TypeDefinition") {
+					continue
+				}
+				if bk, ok := mt.Key().Underlying().(*types.Basic); !ok || bk.Kind() != types.String {
+					continue
+				}
+				// only the table of extensions handed over by the parser (a parameter or a call result), not the
+				// merger's own indexes
+				if _, own := lk.X.(*ssa.MakeMap); own {
+					continue
+				}
+				if _, isField := lk.X.(*ssa.UnOp); isField {
+					continue
+				}
+				if fn.Signature.Recv() != nil {
+					continue // the listener's own duplicate test ("already extended in file") is about names
+				}
+				n++
+				construct := "extension-by-definition:" + load.FuncName(fn)
+				byName, byDef := false, false
+				var walk func(v ssa.Value, depth int)
+				walk = func(v ssa.Value, depth int) {
+					if depth > 3 || v.Referrers() == nil {
+						return
+					}
+					for _, ref := range *v.Referrers() {
+						switch x := ref.(type) {
+						case *ssa.Extract:
+							if x.Index == 1 {
+								if x.Referrers() != nil && len(*x.Referrers()) > 0 {
+									byName = true
+								}
+							} else {
+								walk(x, depth+1)
+							}
+						case *ssa.BinOp:
+							if x.Op == token.EQL || x.Op == token.NEQ {
+								other := x.X
+								if other == v {
+									other = x.Y
+								}
+								if c, isC := other.(*ssa.Const); isC && c.IsNil() {
+									byName = true
+								} else {
+									byDef = true
+								}
+							}
+						case *ssa.Phi:
+							walk(x, depth+1)
+						}
+					}
+				}
+				walk(lk, 0)
+				switch {
+				case byDef && !byName:
+					r.OK(rule, construct, p.Pos(lk.Pos()), "value-compare", "the recorded extension is compared with the definition at hand")
+				case byName:
+					r.Bad(rule, construct, p.Pos(lk.Pos()), "a definition is taken for an extension because its NAME is in the file's extension table: a file that declares a type and extends it has two definitions of that name, the declaration is merged as an extension (a duplicate declaration in another file goes unreported) and the extension of a type declared in the same file finds no target")
+				default:
+					r.Unknown(rule, construct, p.Pos(lk.Pos()), "the extension table is looked up in a way this rule does not read")
+				}
+			}
+		}
+	}
+	if n == 0 {
+		r.Unknown(rule, "extension-by-definition", "-", "no lookup in the extension table found in the merger: anchors no longer resolve")
+	}
+}
+
+// ModuleByModuleName (C07.10): "file is not a module" is decided by the module name the parser attached to a type
+// (empty for the types of a model file), not by the mere presence of metadata, which the types of a model file have
+// as soon as they have relations.
+func ModuleByModuleName(p *load.Prog, r *oblig.Report, rule string, funcs []*ssa.Function) {
+	n := 0
+	for _, fn := range funcs {
+		if fn.Pkg == nil || fn.Pkg.Pkg.Name() != "transformer" {
+			continue
+		}
+		for _, b := range fn.Blocks {
+			for _, in := range b.Instrs {
+				st, ok := in.(*ssa.Store)
+				if !ok {
+					continue
+				}
+				c, ok := st.Val.(*ssa.Const)
+				if !ok || c.Value == nil || c.Value.Kind() != constant.String || constant.StringVal(c.Value) != "file is not a module" {
+					continue
+				}
+				// the test that leads here: on a type definition or on a condition?
+				onType, byModule, onCond := false, false, false
+				var derives func(v ssa.Value, depth int)
+				derives = func(v ssa.Value, depth int) {
+					if depth > 5 {
+						return
+					}
+					switch x := v.(type) {
+					case *ssa.Call:
+						if cal := x.Common().StaticCallee(); cal != nil {
+							if cal.Name() == "GetModule" {
+								byModule = true
+							}
+							if cal.Signature.Recv() != nil {
+								rt := cal.Signature.Recv().Type().String()
+								if strings.HasSuffix(rt, "v1.TypeDefinition") || strings.HasSuffix(rt, "v1.Metadata") {
+									onType = true
+								}
+								if strings.HasSuffix(rt, "v1.Condition") || strings.HasSuffix(rt, "v1.ConditionMetadata") {
+									onCond = true
+								}
+							}
+							for _, a := range x.Common().Args {
+								derives(a, depth+1)
+							}
+						}
+					case *ssa.BinOp:
+						derives(x.X, depth+1)
+						derives(x.Y, depth+1)
+					case *ssa.UnOp:
+						derives(x.X, depth+1)
+					case *ssa.FieldAddr:
+						if structFieldNameM(x.X.Type(), x.Field) == "Module" {
+							byModule = true
+						}
+						derives(x.X, depth+1)
+					case *ssa.Phi:
+						for _, e := range x.Edges {
+							derives(e, depth+1)
+						}
+					}
+				}
+				for _, ce := range DominatingConds(b) {
+					derives(ce.Cond, 0)
+				}
+				if !onType || onCond && !onType {
+					continue
+				}
+				n++
+				construct := "module-by-name:" + load.FuncName(fn)
+				if byModule {
+					r.OK(rule, construct, p.Pos(st.Pos()), "dominating-test", "decided by the module name attached to the type")
+				} else {
+					r.Bad(rule, construct, p.Pos(st.Pos()), "'file is not a module' is decided by whether the type has metadata at all: the types of a model file ('model / schema 1.1') have metadata as soon as they have relations, so such a file is merged as if it were a module")
+				}
+			}
+		}
+	}
+	if n == 0 {
+		r.Unknown(rule, "module-by-name", "-", "no 'file is not a module' decision on a type definition found: anchors no longer resolve")
+	}
+}
+
+func structFieldNameM(t types.Type, i int) string {
+	if pt, ok := t.Underlying().(*types.Pointer); ok {
+		t = pt.Elem()
+	}
+	if st, ok := t.Underlying().(*types.Struct); ok && i < st.NumFields() {
+		return st.Field(i).Name()
+	}
+	return ""
 }
